@@ -47,10 +47,10 @@ func c13RegisterProtos(tb testing.TB) []c13Variant {
 			p.MaxTxnLife = 20
 			p.StateProofInterval, p.StateProofVotersLookback, p.StateProofMaxRecoveryIntervals = 16, 4, 10
 		}),
-		mk("engc-c13-c", "lookback 12, MaxBalLookback 14, state proofs every 4 (voters lookback 1, 3 recovery intervals, top 2)", func(p *config.ConsensusParams) {
+		mk("engc-c13-c", "lookback 12, MaxBalLookback 14, state proofs every 4 (voters lookback 1, 1 recovery interval: voters retention shorter than MaxBalLookback, top 2)", func(p *config.ConsensusParams) {
 			p.SeedLookback, p.SeedRefreshInterval = 2, 3
 			p.MaxBalLookback = 14
-			p.StateProofInterval, p.StateProofVotersLookback, p.StateProofMaxRecoveryIntervals, p.StateProofTopVoters = 4, 1, 3, 2
+			p.StateProofInterval, p.StateProofVotersLookback, p.StateProofMaxRecoveryIntervals, p.StateProofTopVoters = 4, 1, 1, 2
 		}),
 	}
 }
@@ -73,7 +73,7 @@ type c13Run struct {
 	p      config.ConsensusParams
 	bl     basics.Round // agreement balance lookback
 	flips  map[basics.Address]int
-	genOnl []basics.Address // accounts Online in genesis
+	genOnl []basics.Address        // accounts Online in genesis
 	genIE  map[basics.Address]bool // genesis accounts allocated with IncentiveEligible = true (see c13MaskGenesisIE)
 	st     c13Stats
 }
@@ -745,4 +745,68 @@ func TestVerif_C13_OnlineStake(t *testing.T) {
 	vk.Assume("the StateDelta returned by Ledger.Validate describes the block correctly; unsigned transactions with a mocked signature cache; seeds are not verified (agreement's job)")
 	variants := c13RegisterProtos(t) // before any ledger exists
 	rapid.Check(t, func(rt *rapid.T) { c13RunCase(t, rt, vk, variants) })
+}
+
+// TestVerif_C13_KnownGenesisEligible reproduces the class excluded by construction above (maskGenesisIE): a genesis
+// allocation with an Online, IncentiveEligible account. LookupAccount(0, addr) reports IncentiveEligible = true (the
+// accountbase row carries it) but LookupAgreement(r, addr) reports false for every round until a block touches the
+// account, because the round-0 row of the onlineaccounts table is built from voting data, balance and rewards base
+// only (sqlitedriver/schema.go performOnlineAccountsTableMigration). agreement.payoutEligible reads exactly this flag.
+// The answer does not depend on the flush schedule. No genesis generator in the repository sets the flag.
+func TestVerif_C13_KnownGenesisEligible(t *testing.T) {
+	vk := vkBegin(t, "C13")
+	vk.Rule("engine world under ConsensusFuture; pick a genesis account that is Online and IncentiveEligible in the genesis allocation, add 1-3 blocks that do not touch it, optionally commit; " +
+		"compare LookupAgreement(r, addr).IncentiveEligible with the genesis allocation. Non-trivial: such an account exists. Distinct: by world configuration and schedule.")
+	rapid.Check(t, func(rt *rapid.T) {
+		w := engcNewWorld(t, rt, engcOpts{Label: vk.Label, Proto: protocol.ConsensusFuture, Profile: "pay"})
+		defer w.Close()
+		g := w.Model.At(0)
+		var subject basics.Address
+		found := false
+		for _, u := range w.Users {
+			if d := g.Acct(u).Data; d.Status == basics.Online && d.IncentiveEligible {
+				subject, found = u, true
+				break
+			}
+		}
+		if !found {
+			vk.Case(false, strings.Join(w.History, "|"))
+			vk.Label("genesis-ie:no-such-account")
+			return
+		}
+		for i, k := 0, rapid.IntRange(1, 3).Draw(rt, "blocks"); i < k; i++ {
+			b := w.BeginBlock(rt)
+			b.ProposerSet, b.Proposer, b.Eligible = true, w.Sink, false
+			b.Finish(rt)
+		}
+		if rapid.Bool().Draw(rt, "commit") {
+			w.Node.OpCommit()
+		}
+		vk.Case(true, strings.Join(w.History, "|"))
+		latest := w.Model.Latest()
+		r := basics.Round(rapid.Uint64Range(uint64(w.Node.DBRound()), uint64(latest)).Draw(rt, "round"))
+		base, _, _, err := w.Node.L.LookupAccount(r, subject)
+		if err != nil || !base.IncentiveEligible || base.Status != basics.Online {
+			rt.Fatalf("C13 VIOLATION: LookupAccount(%d, %v) = %+v, %v; the genesis allocation is Online and IncentiveEligible and no block touched the account", r, subject, base, err)
+		}
+		oad, err := w.Node.L.LookupAgreement(r, subject)
+		if err != nil {
+			rt.Fatalf("C13 VIOLATION: LookupAgreement(%d, %v) failed: %v", r, subject, err)
+		}
+		if oad.IncentiveEligible {
+			vk.Label("genesis-ie:answers-correctly")
+			return
+		}
+		what := fmt.Sprintf("LookupAgreement(%d, %v).IncentiveEligible = false; the genesis allocation of the account is Online with IncentiveEligible = true and no block touched it (LookupAccount reports true; dbRound %d, latest %d)",
+			r, subject, w.Node.DBRound(), latest)
+		vk.Label("genesis-ie:reproduced")
+		if vkKnownListed("C13", "genesis-incentive-eligible") {
+			vk.Known("genesis-incentive-eligible", what, map[string]any{"history": w.History})
+		} else {
+			vk.Excluded("genesis-incentive-eligible (reproduced; finding reported but not listed in KNOWN_FINDINGS.txt)")
+		}
+		if vk.WantSample(true) {
+			vk.Sample(true, map[string]any{"history": w.History, "observed": what})
+		}
+	})
 }
